@@ -29,7 +29,7 @@ PROPS = {
         bounded="C02", level="other",
     ),
     "C03": dict(
-        functions=[(DEC, r"BinaryDecoder\..*", ".*"), (R, READERS, ".*")],
+        functions=[(DEC, r"BinaryDecoder\..*", ".*"), (R, READERS, "(default|badindex)")],
         lemmas=["wf_branch_at"],
         bounded="C03", level="other",
     ),
@@ -50,9 +50,13 @@ PROPS = {
     "C06": dict(functions=[(DEC, r"BinaryDecoder\..*", ".*"), (R, r"skip_sync", "default")], lemmas=[], bounded="C06", level="other"),
     "C07": dict(functions=[(W, r"(null|deflate|bzip2|xz)_write_block", "default"), (W, r"Writer\.(dump|write|flush|write_block)", ".*")],
                 lemmas=[], bounded="C07", level="other"),
-    # C08: only the promotion pieces are under contract (maybe_promote: the value conversions; match_types on
-    # primitive names: equal or promotable); field matching, defaults, enum defaults, unions: bounded
-    "C08": dict(functions=[(R, r"maybe_promote", "default"), (R, r"match_types", "prims"), (R, r"read_enum", "resolve")], lemmas=[], bounded="C08", level="exploration"),
+    # C08: alignment under schema resolution (behaviour `consume`: with ANY reader schema and options a reader that returns
+    # has consumed exactly one value of the writer's schema), the promotion pieces, the enum default; the resolved VALUES
+    # (field matching, defaults, unions) are bounded
+    "C08": dict(functions=[(R, r"read_(null|boolean|int|long|float|double|bytes|utf8|fixed|enum|array|map|union|record|data)", "consume"),
+                           (R, r"(match_schemas|match_types|maybe_promote)", "pure"),
+                           (R, r"maybe_promote", "default"), (R, r"match_types", "prims"), (R, r"read_enum", "resolve")],
+                lemmas=["wf_branch_at"], bounded="C08", level="other"),
     # C09: "a function of schema and datum alone": frame obligations of the functions involved in
     # branch selection (no module-level or default-argument state); the selection rule itself is bounded
     "C09": dict(functions=[(W, r"write_union", ".*"), (VP, r"_validate.*", "default")], lemmas=WLEMMAS, provenance=True,
